@@ -193,7 +193,8 @@ def check_operators(model, R):
         if len(rets) != 1:
             R.incomplete_at('C05.OPERATORS', m.qualname, 'expected a single return')
             continue
-        got = tree(inline_expr(m.node, rets[0].value), model, m.mod, cls=tcls)
+        from sa.core import single_bindings
+        got = tree(inline_expr(m.node, rets[0].value, bindings=single_bindings(m.node, phi=True)), model, m.mod, cls=tcls)
         R.ob('C05.OPERATORS', m.qualname, show(got), got == mk(s, o), 'documented: %s' % show(mk(s, o)), m.loc)
     m = tcls.methods.get('__neg__')
     rets = [n for n in m.node.body if isinstance(n, ast.Return)] if m else []
@@ -247,20 +248,37 @@ def _unpack_idiom(fnode, var):
 
 
 def _shape_normalised(model, f, cfg, ret):
-    n = _unpack_idiom(f.node, 'shape')
-    if n is not None:
-        top = n
-        return cfg.dominates(top, ret)
-    # through a module-level helper:  shape = helper(shape)
-    for s in body_walk(f.node):
-        if isinstance(s, ast.Assign) and norm(s.targets[0]) == 'shape' and isinstance(s.value, ast.Call) and [norm(a) for a in s.value.args] == ['shape']:
-            d = model.resolve(f.mod, s.value.func)
-            h = model.funcs.get(d) if d else None
-            if h is not None and len(h.pos_params) == 1 and _unpack_idiom(h.node, h.pos_params[0]) is not None and cfg.dominates(s, ret):
-                rets = [r for r in body_walk(h.node) if isinstance(r, ast.Return)]
-                if all(norm(r.value) in (h.pos_params[0], '%s[0]' % h.pos_params[0]) for r in rets):
-                    return True
-    return False
+    """the constructor evaluated on the four call forms f(2, 3) / f((2, 3)) / f([2, 3]) / f(5): the array factory must receive the shape (2, 3) resp. (5,)
+    - whatever the spelling of the unpacking (inline test, helper, early returns)"""
+    from sa.peval import PE
+    from sa.report import Incomplete
+    for given, want in (((2, 3), [2, 3]), (((2, 3),), [2, 3]), (([2, 3],), [2, 3]), ((5,), [5])):
+        try:
+            outs = PE(model, atoms_not_none=True).paths(f, {f.node.args.vararg.arg: tuple(given)}, max_paths=16)
+        except Incomplete:
+            return False
+        if not outs or any(o.kind != 'return' for o in outs):
+            return False
+        for o in outs:
+            got = None
+            for t, a_, kw, node in o.calls:
+                if not (t or '').startswith('numpy.'):
+                    continue
+                leaf = t.split('.')[-1]
+                if leaf in ('empty', 'ones', 'zeros', 'full'):
+                    got = kw.get('shape', a_[0] if a_ else None)
+                elif leaf in ('rand', 'randn'):
+                    got = list(a_)
+                elif leaf in ('normal', 'uniform', 'randint', 'random', 'standard_normal'):
+                    got = kw.get('size', a_[-1] if a_ else None)
+                else:
+                    continue
+                break
+            if isinstance(got, int) and not isinstance(got, bool):
+                got = [got]
+            if not isinstance(got, (list, tuple)) or list(got) != want:
+                return False
+    return True
 
 
 def check_ctor(model, R):
